@@ -13,8 +13,15 @@
 (* (sendAllMatch), "first" (sendFirstMatch), "hash" (consistentHashing: the   *)
 (* line goes to exactly one destination, which one is property C15's matter). *)
 (*                                                                            *)
+(* The table is created from a configuration; validate_order as written      *)
+(* there is "" (option absent), "false" or "true".  The order check itself    *)
+(* (a process-wide max-register per name) is property C19's model; here a     *)
+(* point is `newer` or not, and the check is one stage of the gate: after     *)
+(* validation, before the blacklist, only when the option is "true".          *)
+(*                                                                            *)
 (* The outcome of one Dispatch is                                             *)
-(*   [in, invalid, black, unroutable : counter increments,                    *)
+(*   [in, invalid, ooo, black, unroutable : counter increments                *)
+(*                       (ooo = the out_of_order counter),                    *)
 (*    rt  : Seq(vector)  per route, the number of hand-overs per destination  *)
 (*                       (capture routes: one component = calls of Dispatch), *)
 (*    agg : set of aggregator indices the line was offered to]                *)
@@ -55,12 +62,18 @@ RouteDecl(r, nm) ==
 
 NoDelivery(t) == [k \in DOMAIN t.routes |-> {Zero(Width(t.routes[k]))}]
 
+\* ---- order validation as configured ---------------------------------------
+OrderSettings == {"", "false", "true"}      \* validate_order as written; "" = absent (documented default: disabled)
+OrdOn(ord) == ord = "true"
+
 \* ---- C01/C02: the expectation for one line --------------------------------
 \* rt is a sequence of SETS of allowed vectors; aggMust/aggMay bound the aggregator intake
-Expect(t, nm, valid) ==
-    LET base == [in |-> 1, invalid |-> 0, black |-> 0, unroutable |-> 0,
+\* ord = validate_order as written, newer = the point is newer than every point accepted for its name before
+ExpectO(t, ord, nm, valid, newer) ==
+    LET base == [in |-> 1, invalid |-> 0, ooo |-> 0, black |-> 0, unroutable |-> 0,
                  rt |-> NoDelivery(t), aggMust |-> {}, aggMay |-> {}, fate |-> "?"]
-    IN IF ~valid THEN [base EXCEPT !.invalid = 1, !.fate = "invalid"]
+    IN IF ~valid THEN [base EXCEPT !.invalid = 1, !.fate = "invalid"]           \* whatever the order setting
+       ELSE IF OrdOn(ord) /\ ~newer THEN [base EXCEPT !.ooo = 1, !.fate = "out-of-order"]
        ELSE IF Blacklisted(t, nm) THEN [base EXCEPT !.black = 1, !.fate = "blacklisted"]
        ELSE LET n2 == Rewritten(t, nm)
                 b2 == [base EXCEPT !.aggMust = AggMust(t, n2), !.aggMay = AggMay(t, n2)]
@@ -70,9 +83,12 @@ Expect(t, nm, valid) ==
                     ELSE [b2 EXCEPT !.rt = [k \in DOMAIN t.routes |-> RouteDecl(t.routes[k], n2)],
                                     !.fate = "routed"]
 
+\* order validation off (C01's tables)
+Expect(t, nm, valid) == ExpectO(t, "", nm, valid, TRUE)
+
 \* an observed / computed outcome o conforms to expectation e
 Conforms(o, e) ==
-    /\ o.in = e.in /\ o.invalid = e.invalid /\ o.black = e.black /\ o.unroutable = e.unroutable
+    /\ o.in = e.in /\ o.invalid = e.invalid /\ o.ooo = e.ooo /\ o.black = e.black /\ o.unroutable = e.unroutable
     /\ Len(o.rt) = Len(e.rt)
     /\ \A k \in DOMAIN e.rt : o.rt[k] \in e.rt[k]
     /\ e.aggMust \subseteq o.agg /\ o.agg \subseteq (e.aggMust \cup e.aggMay)
@@ -80,6 +96,9 @@ Conforms(o, e) ==
 \* C01 over a set of possible validity verdicts (C02 allows both where the
 \* documentation is silent): the outcome must be right for one of them
 DeclOK(t, nm, verdicts, o) == \E v \in verdicts : Conforms(o, Expect(t, nm, v))
+\* ... with the order setting of the table and the set of possible answers of the order register
+DeclOKO(t, ord, nm, verdicts, newers, o) ==
+    \E v \in verdicts, n \in newers : Conforms(o, ExpectO(t, ord, nm, v, n))
 
 WellFormedTable(t) ==
     /\ \A k \in DOMAIN t.routes :
